@@ -2,6 +2,13 @@ package main
 
 import (
 	"context"
+	"crypto/ecdsa"
+	"crypto/elliptic"
+	crand "crypto/rand"
+	"crypto/x509"
+	"crypto/x509/pkix"
+	"math/big"
+	"sync"
 	"encoding/binary"
 	"fmt"
 	"io"
@@ -131,6 +138,11 @@ func garbageFrames(row *GRow, chanID, tokID, nextSeq uint32, rnd *rand.Rand) [][
 		return [][]byte{rawFrame("OPN", 'F', cat(le32(chanID), uaBytes([]byte("http://example.org/NoSuchPolicy#"+fmt.Sprint(rnd.Intn(1000)))), uaBytes(nil), uaBytes(nil), seqhdr(nextSeq), junk(50)))}
 	case "opn.junkcert":
 		return [][]byte{rawFrame("OPN", 'F', cat(le32(chanID), uaBytes([]byte(polURI)), uaBytes(junk(300)), uaBytes(junk(20)), seqhdr(nextSeq), junk(256)))}
+	case "opn.eccert":
+		return [][]byte{rawFrame("OPN", 'F', cat(le32(chanID), uaBytes([]byte(polURI)), uaBytes(ecCert()), uaBytes(junk(20)), seqhdr(nextSeq), junk(256)))}
+	case "opn.nocert":
+		return [][]byte{rawFrame("OPN", 'F', cat(le32(chanID), uaBytes([]byte(polURI)), uaBytes(nil), uaBytes(nil), seqhdr(nextSeq), junk(256))),
+			rawFrame("OPN", 'F', cat(le32(chanID), uaBytes([]byte(polURI)), uaBytes([]byte{}), uaBytes([]byte{}), seqhdr(nextSeq), junk(64)))}
 	case "opn.hugelen":
 		return [][]byte{rawFrame("OPN", 'F', cat(le32(chanID), le32(0x7fffffff), junk(64)))}
 	case "opn.neglen":
@@ -327,4 +339,21 @@ func runGarbageClientPre(row *GRow, rnd *rand.Rand) runResult {
 		_ = io.EOF
 	}
 	return runResult{status: "ok", obs: map[string]any{"log": log}}
+}
+
+var ecOnce sync.Once
+var ecDER []byte
+
+// ecCert returns a well-formed self-signed certificate with an ECDSA key.
+func ecCert() []byte {
+	ecOnce.Do(func() {
+		k, err := ecdsa.GenerateKey(elliptic.P256(), crand.Reader)
+		if err != nil {
+			return
+		}
+		tmpl := &x509.Certificate{SerialNumber: big.NewInt(7), Subject: pkix.Name{CommonName: "verif ec"},
+			NotBefore: time.Now().Add(-time.Hour), NotAfter: time.Now().Add(24 * time.Hour)}
+		ecDER, _ = x509.CreateCertificate(crand.Reader, tmpl, tmpl, &k.PublicKey, k)
+	})
+	return ecDER
 }
